@@ -19,7 +19,8 @@ OUTSIDE = P.OUTSIDE_PIPELINE + ["'under different hash seeds': set / dict iterat
                                 "symbolic proxies - NOT covered", "bootstrap estimator: its generator is created from the seed "
                                 "setting in __init__ (covered by the bootstrap history cases of C08)"]
 BOUNDS = {"quick": "NP (4 reporting) and GA (7 reporting), 2 nonreporting, 1 unexpected; histories on one client: [R, R], [R, R', R] with R' a "
-                   "different estimator / alphas / estimands / aggregates, and fresh client vs used client; same config object reused",
+                   "different estimator / alphas / estimands / aggregates, and fresh client vs used client; same config object reused; seed "
+                   "setting 0; callers that omit model_parameters: [R] vs [bootstrap run, other estimator, R] from a fresh process state",
           "thorough": "adds 2 estimands and histories of 4 calls"}
 OPTS = {"quick": dict(case_timeout_s=900, solver_timeout_ms=30000), "thorough": dict(case_timeout_s=3000, solver_timeout_ms=60000)}
 
@@ -39,12 +40,63 @@ def cases(tier):
         for nm, Rp in others.items():
             out.append(dict(name="%s_history_%s" % (pi[:2], nm), units=P.standard_units(max(nrep, 7), 2, [P.U("c2_x0", "unexp")], cls=True),
                             R=R, Rp=Rp, cut_calibration=True, weight=10))
+        # the seed setting 0 is a valid seed like any other
+        out.append(dict(name="%s_seed0" % pi[:2], units=P.standard_units(max(nrep, 7), 2, [P.U("c2_x0", "unexp")], cls=True),
+                        R=dict(R, model_parameters={"seed": 0}), Rp=None, cut_calibration=True, weight=10))
+        # callers that leave model_parameters out: a run after other runs in the same process = the run in a fresh process
+        out.append(dict(name="%s_process_history" % pi[:2], kind="process", units=P.standard_units(max(nrep, 7), 2, [P.U("c2_x0", "unexp")], cls=True),
+                        R=R, other_pi=other_pi, cut_calibration=True, weight=20))
         out.append(dict(name="%s_fresh_vs_used" % pi[:2], units=P.standard_units(max(nrep, 7), 2, [P.U("c2_x0", "unexp")], cls=True),
                         R=R, Rp=others["other_estimator"], fresh=True, cut_calibration=True, weight=10))
     return out
 
 
+def fresh_process_state():
+    """emulate a fresh interpreter for what the client keeps at module / function level: the mutable default arguments"""
+    from elexmodel.client import ModelClient
+
+    for fn in (ModelClient.get_estimates, ModelClient.get_national_summary_votes_estimates):
+        for d in (fn.__defaults__ or ()):
+            if isinstance(d, dict):
+                d.clear()
+        for d in ((fn.__kwdefaults__ or {}).values()):
+            if isinstance(d, dict):
+                d.clear()
+
+
+def run_process(ctx, case):
+    """[R] in a fresh process  ==  [bootstrap run, other-estimator run, R] in a fresh process, all without model_parameters"""
+    from elexmodel.client import ModelClient
+    from . import bs as BS
+
+    sc = P.build(ctx, dict(case, estimands=["dem", "turnout"]))
+    pre, cur = sc.frames()
+    base = dict(case, omit_model_parameters=True)
+    fresh_process_state()
+    a = P.run_client(ctx, dict(base, **case["R"]), sc=sc, frames=(pre.copy(), cur.copy())).res
+    a = {k: v.copy() for k, v in a.items()}
+    fresh_process_state()
+    # a bootstrap run of another election first (its numeric core is stubbed; what matters is what it leaves behind)
+    bcase = dict(units=BS.margin_units(10, 1, 0), B=2, alphas=[0.9], aggregates=["postal_code", "unit"], omit_model_parameters=True)
+    boot = BS.BootStub(ctx, 2, tag="hist_").install()
+    try:
+        BS.run_bs_client(ctx, bcase, boot=boot)
+    finally:
+        boot.uninstall()
+    other = dict(pi=case["other_pi"], alphas=[0.5 if case["other_pi"] == "nonparametric" else 0.7], estimands=["turnout"],
+                 aggregates=case["R"]["aggregates"])
+    P.run_client(ctx, dict(base, **other), sc=sc, frames=(pre.copy(), cur.copy()))
+    b = P.run_client(ctx, dict(base, **case["R"]), sc=sc, frames=(pre.copy(), cur.copy())).res
+    fresh_process_state()
+    obl = [("same set of tables", sorted(a) == sorted(b))]
+    for t in sorted(set(a) & set(b)):
+        obl += T.compare_tables(a[t], b[t], t)
+    return obl, {"alone": P.tables_out(a), "after_others": P.tables_out(b)}
+
+
 def run(ctx, case):
+    if case.get("kind") == "process":
+        return run_process(ctx, case)
     from elexmodel.client import ModelClient
 
     sc = P.build(ctx, dict(case, estimands=["dem", "turnout"]))
